@@ -590,14 +590,20 @@ def resample(sig, old=1, new=1, order=3, zero=0.):
     step = iter(step)
     while True:
       yield lagrange(enumerate(data))(idx)
-      idx += next(step)
-      while idx > threshold:
-        data.append(next(isig))
-        idx -= 1
+      try:
+        idx += next(step)
+        while idx > threshold:
+          data.append(next(isig))
+          idx -= 1
+      except StopIteration: # No more input data (or time step): that's the end
+        return
   else:
     while True:
       yield lagrange(enumerate(data))(idx)
       idx += step
-      while idx > threshold:
-        data.append(next(isig))
-        idx -= 1
+      try:
+        while idx > threshold:
+          data.append(next(isig))
+          idx -= 1
+      except StopIteration: # No more input data: that's the end
+        return
